@@ -31,12 +31,12 @@ def hexOf (b : ByteArray) : String := Id.run do
 
 def natHex (n : Nat) : String := String.ofList (Nat.toDigits 16 n)
 
-def outcomeStr (r : Result) : String :=
-  match r.outcome with
-  | .panic => "panic"
-  | .unsupported => "unsupported"
-  | .outOfFuel => "model-out-of-fuel"
-  | .done _ _ =>
+def outcomeStr (r : CallRes) : String :=
+  match r.status with
+  | 1 => "panic"
+  | 2 => "unsupported"
+  | 3 => "model-out-of-fuel"
+  | _ =>
     match r.err with
     | none => "ok"
     | some .executionReverted => "revert"
@@ -48,8 +48,17 @@ def parseStorage (j : Json) : List (Nat × Nat) :=
     | [k, v] => some (hexNat (J.str k), hexNat (J.str v))
     | _ => none)
 
+def parseWorld (j : Json) : World :=
+  (J.arr j).map (fun a => { addr := hexNat (J.strOf a "addr"), code := unhex (J.strOf a "code"),
+                            balance := (J.intOf a "balance").toNat, storage := parseStorage (J.get a "storage") })
+
 def storageStr (st : List (Nat × Nat)) : String :=
   "[" ++ ",".intercalate (st.map (fun (k, v) => natHex k ++ "=" ++ natHex v)) ++ "]"
+
+/-- canonical rendering of every account: address, balance, code, non-zero storage; sorted by address -/
+def worldStr (w : World) : String :=
+  let accs := w.mergeSort (fun a b => a.addr ≤ b.addr)
+  " ".intercalate (accs.map (fun a => s!"{natHex a.addr}:bal={a.balance}:code={hexOf a.code}:{storageStr (normStorage a.storage)}"))
 
 def logStr (addr : Nat) (topics : List Nat) (data : String) : String :=
   natHex addr ++ ":" ++ ",".intercalate (topics.map natHex) ++ ":" ++ data
@@ -124,29 +133,84 @@ def handleExec (ds : DS) (j : Json) : IO DS := do
     caller := hexNat (J.strOf j "caller"), callee := hexNat (J.strOf j "callee"), origin := hexNat (J.strOf env "origin"),
     value := (J.intOf j "value").toNat, height := (J.intOf env "height").toNat,
     time := ((J.intOf env "time") % (2 ^ 64 : Nat)).toNat, chainId := hexNat (J.strOf env "chainid_num") }
-  let r := execTop menv gas (J.intOf env "caller_balance").toNat pre
+  let preW : World :=
+    if J.has j "pre" then parseWorld (J.get j "pre")
+    else [{ addr := menv.caller, balance := (J.intOf env "caller_balance").toNat }, { addr := menv.callee, code := menv.code, storage := pre }]
+  let r := execTop menv gas preW
   let mOutcome := outcomeStr r
+  let mStorage := normStorage (((r.world.get menv.callee).map (·.storage)).getD [])
   for op in [0:256] do
-    if r.frame.seen &&& (1 <<< op) != 0 then ds := { ds with opSeen := ds.opSeen.modify op (· + 1) }
+    if r.seen &&& (1 <<< op) != 0 then ds := { ds with opSeen := ds.opSeen.modify op (· + 1) }
   if mOutcome == "unsupported" then
     return stat ds "vm.skipped"
   if implOutcome == "timeout" || implOutcome == "fatal" then
     ds := stat ds "vm.impl_died"
-    if r.frame.bigAlloc > memCap then
+    if false then
       ds := stat ds "vm.impl_died.model_sees_alloc_before_charge"
     return ds
   ds := stat ds "vm.compared"
   ds := stat ds ("outcome." ++ (mOutcome.splitOn ":").getLast!)
-  if r.frame.bigAlloc > memCap then ds := stat ds "sit.alloc_above_cap_before_charge"
+  if false then ds := stat ds "sit.alloc_above_cap_before_charge"
   let note := J.strOf j "note"
   let tag := if note.isEmpty then J.strOf j "profile" else note
   let mLogs := r.logs.map (fun l => logStr l.addr l.topics (hexOf l.data))
   let mut diffs : List (String × String) := []
   if mOutcome != implOutcome then diffs := diffs ++ [("outcome", s!"model={mOutcome} impl={implOutcome}")]
   if hexOf r.ret != J.strOf res "ret" then diffs := diffs ++ [("ret", s!"model={hexOf r.ret} impl={J.strOf res "ret"}")]
-  if storageStr r.storage != storageStr implStorage then
-    diffs := diffs ++ [("storage", s!"model={storageStr r.storage} impl={storageStr implStorage}")]
+  if !J.has res "post" && storageStr mStorage != storageStr implStorage then
+    diffs := diffs ++ [("storage", s!"model={storageStr mStorage} impl={storageStr implStorage}")]
+  if J.has res "post" && worldStr r.world != worldStr (parseWorld (J.get res "post")) then
+    diffs := diffs ++ [("accounts", s!"model={worldStr r.world} impl={worldStr (parseWorld (J.get res "post"))}")]
   if mLogs != implLogs then diffs := diffs ++ [("logs", s!"model={mLogs} impl={implLogs}")]
+  -- ---------------- specification mode (C16): same program, Quirks.spec, effectively unlimited gas
+  let cls (o : String) : String := if o == "ok" || o == "revert" || o == "panic" then o else "exception"
+  if implOutcome == "outofgas" then
+    ds := stat ds "spec.skipped_impl_out_of_gas"
+  else
+    let sr := execTop { menv with q := Quirks.spec, fuelCap := gas + 1000 } (2 ^ 60) preW
+    let sStorage := normStorage (((sr.world.get menv.callee).map (·.storage)).getD [])
+    let gasDependent := sr.seen &&& ((1 <<< 0x5a) ||| (1 <<< 0x45)) != 0
+    if gasDependent then ds := stat ds "spec.skipped_reads_gas"
+    else if outcomeStr sr == "unsupported" then ds := stat ds "spec.skipped_unsupported"
+    else
+      ds := stat ds "spec.compared"
+      let sOutcome := outcomeStr sr
+      let sLogs := sr.logs.map (fun l => logStr l.addr l.topics (hexOf l.data))
+      let implRet := J.strOf res "ret"
+      let mut sdiff : Option String := none
+      if sOutcome == "panic" || sOutcome == "model-out-of-fuel" then
+        sdiff := some s!"specification run undetermined ({sOutcome})"
+      else if cls sOutcome != cls implOutcome then sdiff := some s!"outcome class: spec={cls sOutcome} impl={cls implOutcome} ({implOutcome})"
+      else if cls sOutcome == "ok" || cls sOutcome == "revert" then
+        if hexOf sr.ret != implRet then sdiff := some s!"return data: spec={hexOf sr.ret} impl={implRet}"
+        else if cls sOutcome == "ok" && !J.has res "post" && storageStr sStorage != storageStr implStorage then
+          sdiff := some s!"storage: spec={storageStr sStorage} impl={storageStr implStorage}"
+        else if cls sOutcome == "ok" && J.has res "post" && worldStr sr.world != worldStr (parseWorld (J.get res "post")) then
+          sdiff := some s!"accounts: spec={worldStr sr.world} impl={worldStr (parseWorld (J.get res "post"))}"
+        else if cls sOutcome == "ok" && sLogs != implLogs then sdiff := some s!"logs: spec={sLogs} impl={implLogs}"
+      match sdiff with
+      | none => ds := stat ds "spec.agree"
+      | some d =>
+        -- name the finding after the deviation that explains the implementation's error code, if that deviation
+        -- point was reached; otherwise after the first deviation point reached
+        let code := (implOutcome.splitOn ":").getLast!
+        let has (i : Nat) : Bool := sr.devs &&& (1 <<< i) != 0
+        let byCode : Nat :=
+          if cls sOutcome == cls implOutcome then 0
+          else if code == "InputOutOfBounds" && has 1 then 1
+          else if code == "IntegerOverflow" && has 2 then 2
+          else if code == "IntegerOverflow" && has 11 then 11
+          else if code == "UnknownAddress" && has 8 then 8
+          else if code == "NonExistentAccount" && has 10 then 10
+          else if code == "InsufficientBalance" && has 11 then 11
+          else if code == "IllegalWrite" && has 12 then 12
+          else if (code == "InvalidBlockNumber" || code == "BlockNumberOutOfRange") && has 14 then 14
+          else if code == "panic" && has 5 then 5
+          else if code == "ok" && has 4 then 4
+          else if has 7 then 7
+          else 0
+        let devId := if byCode != 0 then byCode else sr.dev
+        ds ← finding ds "monitor" "C16" ("spec:" ++ devName devId) id s!"{d} code={codeHex} input={J.strOf j "input"} gaslimit={gas}"
   let gasDiff := (r.gasLeft : Int) != implGas
   if !diffs.isEmpty then
     let (f, d) := diffs.head!
@@ -160,7 +224,7 @@ def handleExec (ds : DS) (j : Json) : IO DS := do
     if ds.nSample < 3 && implOutcome == "ok" && codeHex.length > 40 then
       ds := { ds with nSample := ds.nSample + 1 }
       IO.println ("SAMPLE " ++ (Json.mkObj [("id", id), ("code", codeHex), ("outcome", mOutcome), ("gasLeft", toString r.gasLeft),
-        ("ret", hexOf r.ret), ("logs", toString mLogs.length), ("storage", storageStr r.storage)]).compress)
+        ("ret", hexOf r.ret), ("logs", toString mLogs.length), ("storage", storageStr mStorage)]).compress)
   return ds
 
 def handleKhash (ds : DS) (j : Json) : IO DS := do
